@@ -22,6 +22,12 @@ for prop in sorted(d):
     for n in sorted(det):
         x = det[n]
         note = f" — {x['note']}" if x.get("note") else ""
+        meta = f"{V}/seeded/{n}/meta.json"
+        import os
+        if x["result"] != "killed" and os.path.exists(meta):
+            why = json.load(open(meta)).get("expected_survivor")
+            if why:
+                note += f" — expected survivor: {why}"
         lines.append(f"* `{n}` ({x['kind']}): {x['result']} — {', '.join(x.get('clauses', [])) or 'nothing'}{note}")
 out = ["| property | changes (seeded + mutants) | caught | clauses that caught them | survivors |", "|---|---|---|---|---|", *rows,
        f"| all | | **{tk} / {tn}** | | |", "",
